@@ -65,6 +65,10 @@ type actionState struct {
 	faults      []string // every injected failure of a storage operation during this action
 	batchFaults int      // ...of which: FindMissing / Put of an output blob (the batching layer's writes)
 	acked       []string // blobs acknowledged (Put returned nil) by the batching layer since the last flush return
+	ctx         context.Context
+	live        bool // registered and not finished yet
+	scope       int  // >0 while the action is inside the batching writer's Put, inside flush, or inside a fake storage call
+	cancelEvent bool // the environment cancelled the action's context (event, not the answer of a storage call)
 	flushCalls  int
 	flushFailed bool
 	acAttempts  int
@@ -92,6 +96,109 @@ type world struct {
 	buffers   []*trackedReader
 	nextIdx   int
 	multi     bool // several actions run concurrently: labels carry the action index
+	acts      []*actionState
+	parked    int // threads parked inside a fake storage call (at its choice point)
+}
+
+// maxActions is the number of cancel events registered per execution (no
+// scenario runs more than two actions).
+const maxActions = 2
+
+// register makes the action a target of its "cancel@a<idx>" event.
+func (w *world) register(st *actionState, ctx context.Context) {
+	w.mu.Lock()
+	defer w.mu.Unlock()
+	st.ctx = ctx
+	st.live = true
+	for len(w.acts) <= st.idx {
+		w.acts = append(w.acts, nil)
+	}
+	w.acts[st.idx] = st
+}
+
+func (w *world) unregister(st *actionState) {
+	w.mu.Lock()
+	st.live = false
+	w.mu.Unlock()
+}
+
+// scope brackets the parts of an action during which the environment may
+// cancel its context: calls into the batching writer, the flush, and every
+// fake storage call.
+func (w *world) scope(ctx context.Context, d int) {
+	if st := actionOf(ctx); st != nil {
+		w.mu.Lock()
+		st.scope += d
+		w.mu.Unlock()
+	}
+}
+
+// inCall brackets the choice point of a fake storage call.
+func (w *world) inCall(ctx context.Context, f func() int) int {
+	st := actionOf(ctx)
+	w.mu.Lock()
+	w.parked++
+	if st != nil {
+		st.scope++
+	}
+	w.mu.Unlock()
+	r := f()
+	w.mu.Lock()
+	w.parked--
+	if st != nil {
+		st.scope--
+	}
+	w.mu.Unlock()
+	return r
+}
+
+func (w *world) choose(ctx context.Context, label string, n int) int {
+	return w.inCall(ctx, func() int { return w.x.Choose(label, n) })
+}
+
+func (w *world) point(ctx context.Context, label string) {
+	w.inCall(ctx, func() int { w.x.Point(label); return 0 })
+}
+
+// addCancelEvents registers the environment transition "the context of
+// action i is cancelled" (the scheduler orders something else, the worker
+// shuts down, the client gives up). It can fire at any quiescent point at
+// which action i is inside the batching writer / its flush / a storage call
+// and some storage call (of any action) is in flight, in particular while
+// the goroutine that dispatches the uploads of a flush is blocked on the
+// upload semaphore. Calls that are in flight at that moment still complete
+// according to their own choice (a server that already has the request does
+// not look at the client's context); calls that start afterwards fail with
+// CANCELLED. The event itself is not a failed storage operation: only the
+// calls that fail because of it are.
+func (w *world) addCancelEvents(x *mc.X) {
+	for i := 0; i < maxActions; i++ {
+		i := i
+		get := func() *actionState {
+			if i < len(w.acts) {
+				return w.acts[i]
+			}
+			return nil
+		}
+		x.AddEvent(&mc.Event{
+			Name: fmt.Sprintf("cancel@a%d", i),
+			Cost: 1,
+			Enabled: func() bool {
+				w.mu.Lock()
+				defer w.mu.Unlock()
+				st := get()
+				return st != nil && st.live && st.scope > 0 && w.parked > 0 && st.ctx.Err() == nil
+			},
+			Fire: func() {
+				w.mu.Lock()
+				st := get()
+				st.cancelEvent = true
+				w.mu.Unlock()
+				x.Logf("EVENT context of action %d is cancelled", i)
+				st.cancel()
+			},
+		})
+	}
 }
 
 // The monitor state of an action travels with the action's context (the
